@@ -525,6 +525,8 @@ func (e *Engine) rtMethod2(name string, rt RT, args []Value) (Value, bool) {
 		return mkInt(64, uint64(st.NumFields())), true
 	case "NumMethod":
 		return mkInt(64, uint64(len(e.exportedMethods(rt.T)))), true
+	case "Comparable":
+		return Bool{V: types.Comparable(rt.T)}, true
 	case "NumIn":
 		sig, ok := rt.T.Underlying().(*types.Signature)
 		if !ok {
